@@ -202,7 +202,13 @@ func main() {
 		fmt.Fprintln(os.Stderr, "unknown mode")
 		os.Exit(2)
 	}
+	for _, f := range atExit {
+		f()
+	}
 }
+
+// atExit: scratch directories etc. that a component created lazily and that must not outlive the process
+var atExit []func()
 
 func runGen(name string, c Component, seed uint64, tier, out, corpus string, noGen bool) {
 	_ = os.MkdirAll(out, 0o755)
